@@ -55,7 +55,12 @@ def producer_partition(tier, seed):
             rnd.shuffle(ids)
             # broker ids start at 0 in most clusters: leaders are drawn from the nodes 0, 1, 2 (trial 0: every leader is node 0)
             leaders = {p: (-1 if rnd.random() < 0.2 else (0 if trial == 0 else rnd.choice([0, 1, 2]))) for p in ids}
-            parts = [(0, p, leaders[p], [0, 1, 2], [0, 1, 2]) for p in ids]
+            # a partition the broker reports with a partition-level error (with or without a leader) still counts: the
+            # number of partitions of the topic is what the Java client hashes modulo
+            # 5 LEADER_NOT_AVAILABLE, 9 REPLICA_NOT_AVAILABLE, 72 LISTENER_NOT_FOUND, -1 UNKNOWN, 3 UNKNOWN_TOPIC_OR_PARTITION
+            perr = {p: (rnd.choice([5, 9, 72, -1, 3]) if (leaders[p] == -1 and rnd.random() < 0.7) or rnd.random() < 0.05 else 0)
+                    for p in ids}
+            parts = [(perr[p], p, leaders[p], [0, 1, 2], [0, 1, 2]) for p in ids]
             cluster = ClusterMetadata()
             cluster.update_metadata(MetadataResponse_v1([(0, "h0", 9092, None), (1, "h1", 9092, None), (2, "h2", 9092, None)], 1,
                                                         [(0, "t", False, parts)]))
